@@ -208,16 +208,17 @@ Proof.
   destruct st; try discriminate; [exact HQ|exact Hdel|apply Hmark..].
 Qed.
 
-Definition op_ok (o : dop) : bool := match o with DCrashRemove _ st => header_first st | _ => true end.
+Definition op_ok (o : dop) : bool := match o with DCrashRemove _ st => header_first st | DLostTail _ _ _ => false | _ => true end.
 Definition ops_ok (os : list dop) : bool := forallb op_ok os.
 
 Lemma Q_step s o : op_ok o = true -> Q s -> Q (dstep true s o).
 Proof.
-  intros Ho HQ. destruct o as [r size|r|r size st|r st]; cbn [dstep].
+  intros Ho HQ. destruct o as [r size|r|r size st|r st|r size have]; cbn [dstep].
   - apply Q_receive; exact HQ.
   - apply Q_remove; [reflexivity|exact HQ].
   - destruct (ilook r (idx s)) as [p|]; [destruct (extent_inside (pack s) p); [exact HQ|]|]; apply Q_append_upto; exact HQ.
   - apply Q_remove; [exact Ho|exact HQ].
+  - discriminate Ho.
 Qed.
 
 Theorem Q_run : forall os s, ops_ok os = true -> Q s -> Q (druns true s os).
@@ -243,7 +244,7 @@ Proof.
   destruct H as [p Hp]. rewrite Hp. destruct (Q1 r p Hp) as (sz & h & Ep). rewrite Ep, N.eqb_refl. reflexivity.
 Qed.
 
-Definition touches (o : dop) (r : N) : bool := match o with DRemove q | DCrashRemove q _ => N.eqb q r | _ => false end.
+Definition touches (o : dop) (r : N) : bool := match o with DRemove q | DCrashRemove q _ | DLostTail q _ _ => N.eqb q r | _ => false end.
 
 Theorem intact_preserved : forall s o r, Q s -> touches o r = false -> dfetch s r = FIntact -> dfetch (dstep true s o) r = FIntact.
 Proof.
@@ -266,7 +267,7 @@ Proof.
     assert (Hm : forall h z, nth_error (mark (pack s) pq h z) p = Some (IRec r size hdr 0)).
     { intros h z. unfold mark. rewrite Epq, nth_error_upd. destruct (Nat.eqb_spec pq p); [contradiction|exact Ep]. }
     destruct st; unfold dfetch; cbn [pack idx]; rewrite ?Hidx, ?E, ?Hm, ?Ep, N.eqb_refl; reflexivity. }
-  destruct o as [q sz|q|q sz st|q st]; cbn [dstep touches] in *.
+  destruct o as [q sz|q|q sz st|q st|q sz have]; cbn [dstep touches] in *.
   - unfold receive. destruct (N.eqb_spec q r) as [->|Hq].
     + rewrite E, Hinside. exact Hself.
     + destruct (ilook q (idx s)) as [pq|]; [destruct (extent_inside (pack s) pq); [exact Hself|]|]; apply Hset; exact Hq.
@@ -277,6 +278,7 @@ Proof.
       { destruct st as [|have| |]; cbn [append_upto]; [apply Happ|destruct (Nat.ltb have sz); apply Happ|apply Happ|apply Hset; exact Hq]. }
       destruct (ilook q (idx s)) as [pq|]; [destruct (extent_inside (pack s) pq); [exact Hself|exact Hup]|exact Hup].
   - apply Hrm. apply N.eqb_neq. exact Ht.
+  - destruct (Nat.ltb have sz); [apply Hset; apply N.eqb_neq; exact Ht|exact Hself].
 Qed.
 
 Lemma acked_stays_intact : (forall os r size, ops_ok os = true -> dfetch (receive (druns true dp0 os) r size) r = FIntact) /\
@@ -337,7 +339,7 @@ Proof.
       destruct (Nat.eqb p i); [rewrite E in Hi; injection Hi as <-; reflexivity|apply Hclean; eapply nth_error_In; exact Hi]. }
     assert (Hrm : forall r st, forallb (fun it => negb (torn it)) (removelast (pack (remove_upto true s0 r st))) = true).
     { intros r st. apply Hsame. unfold remove_upto. destruct (ilook r (idx s0)); [|exact Hclean]. destruct st; cbn [pack]; try exact Hclean; apply Hmark. }
-    destruct last as [r size|r|r size st|r st]; cbn [dstep].
+    destruct last as [r size|r|r size st|r st|r size have]; cbn [dstep]; [| | | |discriminate Hlast].
     - unfold receive. destruct (ilook r (idx s0)) as [p|]; [destruct (extent_inside (pack s0) p); [apply Hsame; exact Hclean|]|]; cbn [pack]; apply Happ.
     - apply Hrm.
     - assert (Hup : forallb (fun it => negb (torn it)) (removelast (pack (append_upto s0 r size st))) = true).
@@ -380,3 +382,32 @@ Lemma data_first_presents_zeroed_blob :
   dfetch (druns false dp0 [DReceive 1 10; DCrashRemove 1 (RmZero 4)]) 1 = FCorrupt /\
   dfetch (druns true dp0 [DReceive 1 10; DCrashRemove 1 (RmZero 4)]) 1 = FAbsent.
 Proof. split; reflexivity. Qed.
+
+(* ---------- the duplicate rule heals a pack that lost its tail ---------- *)
+Lemma receive_with_true s r size : receive_with true s r size = receive s r size.
+Proof. reflexivity. Qed.
+
+Lemma nth_error_app_last {A} (l : list A) x : nth_error (l ++ [x]) (length l) = Some x.
+Proof. induction l as [|a l IH]; [reflexivity|exact IH]. Qed.
+
+(* whatever the state: the index row of r points into a body that ends with the file - a new upload of r appends a whole
+   record and re-points the row, so r is intact again; every other blob that was intact stays intact *)
+Theorem lost_tail_heals : forall s r size have, (have < size)%nat ->
+  let s1 := dstep true s (DLostTail r size have) in
+  dfetch s1 r = FCorrupt /\ dfetch (receive s1 r size) r = FIntact.
+Proof.
+  intros s r size have Hlt. cbn [dstep]. apply Nat.ltb_lt in Hlt. rewrite Hlt. split.
+  - unfold dfetch. cbn [pack idx]. rewrite ilook_iset, N.eqb_refl, nth_error_app_last. reflexivity.
+  - unfold receive. cbn [pack idx]. rewrite ilook_iset, N.eqb_refl. unfold extent_inside. rewrite nth_error_app_last.
+    rewrite app_length. cbn [length]. replace (S (length (pack s)) <? length (pack s) + 1)%nat with false by (symmetry; apply Nat.ltb_ge; rewrite Nat.add_1_r; apply Nat.le_refl).
+    unfold dfetch. cbn [pack idx]. rewrite ilook_iset, N.eqb_refl.
+    replace (length (pack s) + 1)%nat with (length (pack s ++ [ITornBody r size have])) by (rewrite app_length; reflexivity).
+    rewrite nth_error_app_last. rewrite N.eqb_refl. reflexivity.
+Qed.
+
+(* with a rule that compares the file size with the START of the extent only, the torn record passes for a duplicate: the
+   upload is acknowledged and the blob stays corrupt *)
+Lemma start_only_rule_does_not_heal :
+  let s1 := dstep true (receive dp0 1 10) (DLostTail 2 10 3) in
+  dfetch (receive_with false s1 2 10) 2 = FCorrupt /\ dfetch (receive_with true s1 2 10) 2 = FIntact.
+Proof. vm_compute. split; reflexivity. Qed.
